@@ -240,6 +240,29 @@ def _struct(case):
         qidx = [i for i, bi in enumerate(infos) if bi.param is q]
         if len(qidx) == 1 and not torch.equal(q.detach(), torch.full((3,), float(qidx[0] + 1))):
             raise Violation("the second parameter of the group did not receive its own block's update", **desc)
+        if len(shape) >= 2 and not merge and numel > 1:
+            # the same shape as a NON-contiguous parameter (transposed / permuted view of another tensor): blocks must still be
+            # views of the parameter's own storage, tile it exactly once, and update_params must reach the parameter
+            perm = list(range(len(shape)))[::-1]
+            src = torch.zeros(tuple(shape[i] for i in perm))
+            pt = torch.nn.Parameter(src.permute(*perm))  # shape == `shape`, strides reversed
+            pt.grad = torch.ones(shape)
+            dt_ = Distributor(_group_for(ds, torch, [pt], limit, merge))
+            tb = [b for b, bi in zip(dt_.local_blocked_params, dt_.local_block_info_list) if bi.param is pt]
+            cov = []
+            for b in tb:
+                if b.untyped_storage().data_ptr() != pt.untyped_storage().data_ptr():
+                    raise Violation("non-contiguous parameter: a block is not a view of the parameter's own storage", layout="permuted", **desc)
+                if any(d > limit for d in b.shape):
+                    raise Violation(f"non-contiguous parameter: block of shape {tuple(b.shape)} exceeds max_preconditioner_dim {limit}", layout="permuted", **desc)
+                cov += _index_set(b, pt.untyped_storage().data_ptr(), pt.element_size())
+            if sorted(cov) != list(range(numel)):
+                raise Violation("non-contiguous parameter: blocks do not cover every element exactly once", layout="permuted", **desc)
+            dt_.merge_and_block_gradients()
+            dt_.update_params(masked_blocked_search_directions=tuple(torch.full(b.shape, float(i + 1)) for i, b in enumerate(dt_.local_masked_blocked_params)))
+            if bool((pt.detach() == 0).any()) or not all(bool((b == float(i + 1)).all()) for i, b in enumerate(tb)):
+                raise Violation("non-contiguous parameter: update_params did not reach every element of the parameter", layout="permuted", **desc)
+            counters["noncontiguous_params_checked"] = counters.get("noncontiguous_params_checked", 0) + 1
         if len(mine) >= 2 or (merge and tuple(merged) != tuple(shape)):
             sigs.add((tuple(shape), limit, merge))
         if sample is None and len(mine) >= 2:
